@@ -11,6 +11,7 @@ import (
 	"log"
 	"net/http"
 	"net/url"
+	"sort"
 	"strings"
 	"time"
 
@@ -250,6 +251,20 @@ func shortDesc(d string) string {
 	return d
 }
 
+// transitions lists the instants in [from, to) at which the UTC offset of loc changes.
+func transitions(loc *time.Location, from, to int64) []int64 {
+	var out []int64
+	_, prev := time.Unix(from, 0).In(loc).Zone()
+	for t := from; t < to; t += 1800 {
+		_, off := time.Unix(t, 0).In(loc).Zone()
+		if off != prev {
+			out = append(out, t)
+			prev = off
+		}
+	}
+	return out
+}
+
 func main() { mon.Main("C09", run) }
 
 func run(r *mon.Run) {
@@ -264,7 +279,13 @@ func run(r *mon.Run) {
 		// A. time x lifetime
 		for _, lt := range []int64{0, 1, 3600, 604799, 604800, 604801, 700000} {
 			offs := map[string]int64{"date-1s": -1e9, "date-1ns": -1, "date": 0, "date+1ns": 1, "mid": lt * 5e8, "expires-1ns": lt*1e9 - 1, "expires": lt * 1e9, "expires+1ns": lt*1e9 + 1, "expires+1s": lt*1e9 + 1e9}
-			for name, off := range offs {
+			var offNames []string
+			for name := range offs {
+				offNames = append(offNames, name)
+			}
+			sort.Strings(offNames)
+			for _, name := range offNames {
+				off := offs[name]
 				if !mine() {
 					continue
 				}
@@ -272,6 +293,31 @@ func run(r *mon.Run) {
 				c.lifetime, c.tOffsetNanos = lt, off
 				c.desc = fmt.Sprintf("lifetime=%d t=%s", lt, name)
 				runCase(r, id, c, "time", 41)
+			}
+		}
+		// A2. lifetimes around 7 days whose window crosses a daylight-saving transition of the verifying process's
+		// local time zone (the limit is 604800 seconds, not seven calendar days)
+		for _, zn := range []string{"America/New_York", "Europe/London", "Australia/Lord_Howe", "Pacific/Chatham"} {
+			loc, err := time.LoadLocation(zn)
+			if err != nil {
+				r.HarnessFail("time zone %s unavailable: %v", zn, err)
+				continue
+			}
+			for _, tr := range transitions(loc, 1577836800, 1640995200) {
+				for _, back := range []int64{3 * 86400, 6*86400 + 23*3600 + 1800, 1800} {
+					for _, lt := range []int64{604800 - 3601, 604800 - 3600, 604800 - 1800, 604800 - 1, 604800, 604801, 604800 + 1800, 604800 + 3600, 604800 + 3601} {
+						if !mine() {
+							continue
+						}
+						c := baseCase(ver)
+						c.date, c.lifetime, c.tOffsetNanos = tr-back, lt, 1e9
+						c.desc = fmt.Sprintf("zone=%s transition=%d date=transition-%ds lifetime=%d", zn, tr, back, lt)
+						saved := time.Local
+						time.Local = loc
+						runCase(r, id, c, "time-dst", 53)
+						time.Local = saved
+					}
+				}
 			}
 		}
 		// B. methods and stateful request headers (b3 has no request headers on the wire: in-memory ones are outside the property)
